@@ -109,7 +109,8 @@ def main(argv):
     if os.path.isdir(outdir) and not pats:
         for f in os.listdir(outdir):
             os.unlink(os.path.join(outdir, f))
-    results = discharge([o for _, o in all_obs], outdir, timeout=float(os.environ.get("SELFTEST_TIMEOUT", "10")), jobs=int(os.environ.get("VERIF_JOBS", "16")))
+    tmo = float(os.environ.get("SELFTEST_TIMEOUT", "10"))
+    results = discharge([o for _, o in all_obs], outdir, timeout=tmo, jobs=int(os.environ.get("VERIF_JOBS", "16")), rounds=[3.0, tmo])
     by_case = {}
     for (key, o), r in zip(all_obs, results):
         by_case.setdefault(key, []).append(r)
@@ -176,6 +177,26 @@ def main(argv):
         if verbose:
             for r in rs:
                 print("          ", "guard" if r.expect_fail else "     ", r.name, r.status, r.solver, round(r.time_s, 2))
+    # solver regression files: satisfiable inputs on which a solver of the portfolio is known to answer `unsat`;
+    # the confirmation step of pyvc.solve must turn that into `disagree` (never `proved`)
+    import shutil
+
+    from pyvc.solve import Result, solve_file
+
+    rdir = os.path.join(ROOT, "selftest", "solver_regress")
+    for fn in sorted(os.listdir(rdir)) if os.path.isdir(rdir) and not pats else []:
+        if not fn.endswith(".smt2"):
+            continue
+        os.makedirs(outdir, exist_ok=True)
+        p = os.path.join(outdir, "regress." + fn)
+        shutil.copy(os.path.join(rdir, fn), p)
+        r = solve_file(Result("regress." + fn, "post", "unknown", smt_file=p), timeout=10.0)
+        if r.status in ("disagree", "refuted", "unknown"):
+            print(f"ok      solver_regress/{fn:55s} verdict={r.status} (prover={r.solver}, contradicted by {(r.disagree or {}).get('solver')})")
+        else:
+            bad += 1
+            unsound += 1
+            print(f"FAIL    solver_regress/{fn:55s} UNSOUND: a satisfiable file was accepted as {r.status} by {r.solver}; confirmations: {r.confirm_attempts}")
     print(f"selftest: {len(cases)} cases, {len(all_obs)} obligations, {bad} failing, {unsound} UNSOUND, gen {t_gen:.1f}s, total {time.time() - t0:.1f}s")
     return 1 if bad else 0
 
